@@ -274,6 +274,23 @@ def label_of(node):
     return text.split(':')[0][:70] if text else f'line{node["line"]}'
 
 
+def lit_chunks(spec):
+    """{literal text chunk of the specification (split at line ends): its name in coq/Gen/ReportLits.v}"""
+    chunks = set()
+
+    def walk(nodes):
+        for n in nodes:
+            for key in ('parts', 'else_parts'):
+                for p in n.get(key, []):
+                    if p[0] == 'lit':
+                        chunks.update(c for c in p[1].split('\n') if len(c) >= 4)
+            for key in ('body', 'orelse'):
+                walk(n.get(key, []))
+    for _, sub in parts_of(spec):
+        walk(sub['body'])
+    return {c: f'lit_{i}' for i, c in enumerate(sorted(chunks))}
+
+
 def seg_coq(parts):
     items = []
     for p in parts:
@@ -301,6 +318,13 @@ def g(ctx):
         rows.append(f' ({n["line"]}%nat, {qconv.blit(in_loop)}, {seg_coq(n["parts"])})')
     lines.append(';\n'.join(rows) + '].')
     fw.write_if_changed(fw.COQ / 'Gen' / 'ReportLabels.v', '\n'.join(lines) + '\n')
+    # the literal text of the FROZEN specification as compiled constants: the correspondence shards refer to them by name
+    # (string literals are slow to read, and every run repeats the same labels)
+    from lib import c09report
+    lits = lit_chunks(c09report.load_spec())
+    text = ['(* GENERATED by tools/gen/c09_report.py from spec/report_spec.json - do not edit *)', 'From Coq Require Import String Ascii.',
+            'Open Scope string_scope.'] + [f'Definition {name} : string := {qconv.coq_bytes(c)}.' for c, name in lits.items()]
+    fw.write_if_changed(fw.COQ / 'Gen' / 'ReportLits.v', '\n'.join(text) + '\n')
     return tree
 
 
